@@ -60,15 +60,26 @@ def run(res, tier, build_ok):
         n = rng.randint(1, 10)
         evs = []
         for _ in range(n):
-            evs.append(rng.choice(["x", "x", "x", "r", "r", "u", "f1", "f0"]))
+            evs.append(rng.choice(["x", "x", "x", "r", "r", "u", "f1", "f0", "a", "xf"]))
         evs.append("c")
         obs = []
+        facade = None
         for e in evs:
-            if e == "x":
+            if e in ("x", "a", "xf"):
+                # "a": the application wraps the device in the facade (SCSI(dev) sends the probe INQUIRY, which may
+                # itself end in CHECK CONDITION, e.g. a unit attention); "xf": a command through the facade when one
+                # is attached.  For the handle model all three are one command through device.execute.
                 status["v"] = rng.choice([0, 0, 2])
                 before = len(sends)
                 try:
-                    dev.execute(TestUnitReady(sets["spc"].TEST_UNIT_READY))
+                    if e == "a":
+                        res.count("facade attach (probe INQUIRY) %s" % ("GOOD" if status["v"] == 0 else "CHECK CONDITION"))
+                        facade = SCSI(dev)
+                    elif e == "xf" and facade is not None:
+                        res.count("command through the facade")
+                        facade.testunitready()
+                    else:
+                        dev.execute(TestUnitReady(sets["spc"].TEST_UNIT_READY))
                     o = "sent"
                 except Exception as ex:
                     o = "sent" if len(sends) > before else "err:" + type(ex).__name__
@@ -112,7 +123,7 @@ def run(res, tier, build_ok):
         if any(h.mode != ("w+b" if rw else "rb") for h in vos.handles):
             res.violation("open mode", "a handle was opened with the wrong mode", {"readwrite": rw, "modes": [h.mode for h in vos.handles]})
         impl = "ok %s %s cur=%d" % (",".join(obs), hs, cur)
-        reqs.append(("handlerun %d %s" % (1 if detect else 0, ",".join(evs)), impl))
+        reqs.append(("handlerun %d %s" % (1 if detect else 0, ",".join("x" if e in ("a", "xf") else e for e in evs)), impl))
     # ---- context managers: released exactly once, normally and by exception; facade and both device classes
     for kind in ("device", "facade", "iscsi", "iscsi-facade"):
         for raising in (False, True):
